@@ -279,6 +279,26 @@ func (w *W) c11Program(k int, emit func(blob, dump []byte)) {
 			w.Violation("C11/different-document/"+key, fmt.Sprintf("round trip gives a different document (%s): %s; history=%v", attr, diff, lastN(trace, 8)), cs)
 			return
 		}
+		// second generation: what Deserialize left in the (recycled) destination goes through
+		// Serialize again; whole-tape consumers see every entry, also those inside deleted runs
+		if r.Chance(1, 3) {
+			var again *simdjson.ParsedJson
+			var aerr error
+			perr := walk.Guard(func() error {
+				fs := simdjson.NewSerializer()
+				again, aerr = fs.Deserialize(fs.Serialize(nil, *out), nil)
+				return nil
+			})
+			diff := ""
+			if perr == nil && aerr == nil {
+				diff = c11Compare(again, d)
+			}
+			if perr != nil || aerr != nil || diff != "" {
+				w.Violation("C11/second-generation/"+key, fmt.Sprintf("serializing a deserialized document again fails or gives a different document: %v %v %s; history=%v", perr, aerr, diff, lastN(trace, 8)), cs)
+				return
+			}
+			w.Count("second_generation_round_trips", 1)
+		}
 		w.Count(fmt.Sprintf("pair_enc%d_dec%d", em, dm), 1)
 		w.SetAdd("documents", genClass(d.name))
 		if bytes.ContainsAny(d.dump, "s") && bytes.ContainsAny(d.dump, "iud") {
